@@ -331,6 +331,52 @@ macro_rules! full_set {
                         vec![obytes(&sig), oint((n - used) as i64)]
                     }
                     "verify" => vec![oint(sg_::verify(bytes(&a[0]), bytes(&a[1]), bytes(&a[2])) as i32)],
+                    // every single-bit flip of the signature: number accepted, first accepted bit index (or -1)
+                    "verify_flips" => {
+                        let mut sig = bytes(&a[0]).to_vec();
+                        let (m, pk) = (bytes(&a[1]), bytes(&a[2]));
+                        let mut acc = 0i64; let mut first = -1i64;
+                        for i in 0..sig.len() * 8 {
+                            sig[i / 8] ^= 1 << (i % 8);
+                            if sg_::verify(&sig, m, pk) { acc += 1; if first < 0 { first = i as i64; } }
+                            sig[i / 8] ^= 1 << (i % 8);
+                        }
+                        vec![oint(acc), oint(first), oint(sg_::verify(&sig, m, pk) as i32)]
+                    }
+                    // unseeded key generation with the real RNG; the tap only records what was drawn
+                    "keypair_live" => {
+                        let mut pk = vec![0u8; par::PUBLICKEYBYTES]; let mut sk = vec![0u8; par::SECRETKEYBYTES];
+                        cd::verif_hooks::rng_script(None);
+                        cd::verif_hooks::rng_take_log();
+                        sg_::keypair(&mut pk, &mut sk, None);
+                        let log = cd::verif_hooks::rng_take_log();
+                        let lens: Vec<i128> = log.iter().map(|x| x.len() as i128).collect();
+                        vec![obytes(&pk), obytes(&sk), Out::Ints(lens), obytes(&log.concat())]
+                    }
+                    // signing with the real RNG (rand = 1) or none (rand = 0); returns the request log
+                    "signature_live" => {
+                        let mut sig = vec![0u8; par::SIGNBYTES];
+                        cd::verif_hooks::rng_script(None);
+                        cd::verif_hooks::rng_take_log();
+                        sg_::signature(&mut sig, bytes(&a[0]), bytes(&a[1]), int(&a[2]) != 0);
+                        let log = cd::verif_hooks::rng_take_log();
+                        let lens: Vec<i128> = log.iter().map(|x| x.len() as i128).collect();
+                        vec![obytes(&sig), Out::Ints(lens), obytes(&log.concat())]
+                    }
+                    // draws made by seeded key generation and verification (must be none)
+                    "draws_seeded" => {
+                        let mut pk = vec![0u8; par::PUBLICKEYBYTES]; let mut sk = vec![0u8; par::SECRETKEYBYTES];
+                        cd::verif_hooks::rng_script(None);
+                        cd::verif_hooks::rng_take_log();
+                        sg_::keypair(&mut pk, &mut sk, Some(bytes(&a[0])));
+                        let n1 = cd::verif_hooks::rng_take_log().len();
+                        let mut sig = vec![0u8; par::SIGNBYTES];
+                        sg_::signature(&mut sig, bytes(&a[1]), &sk, false);
+                        let n2 = cd::verif_hooks::rng_take_log().len();
+                        let v = sg_::verify(&sig, bytes(&a[1]), &pk);
+                        let n3 = cd::verif_hooks::rng_take_log().len();
+                        vec![oint(n1 as i64), oint(n2 as i64), oint(n3 as i64), oint(v as i32)]
+                    }
                     _ => return None,
                 })
             }
@@ -524,6 +570,10 @@ pub fn dispatch(f: &str, copy: &str, a: &[Arg]) -> Option<Vec<Out>> {
             let inp = bytes(&a[1]);
             cd::fips202::shake256(&mut o, n, inp, inp.len());
             Some(vec![obytes(&o)])
+        }
+        "purity" => {
+            let (n, e, m, f) = crate::purity::run(int(&a[0]) as u64, int(&a[1]) as usize, int(&a[2]) as usize, int(&a[3]) as usize);
+            Some(vec![oint(n), oint(e), oint(m), oint(f)])
         }
         "shake256_hist" => shake_hist(false, a),
         "shake128_hist" => shake_hist(true, a),
